@@ -99,6 +99,14 @@ def plan(plan, tier, seed):
     except AnchorLost as e:
         plan.anchor_errors.append((n11, str(e)))
     plan.dropped.append(vC16.dispatch_fn.__doc__.strip())
+    n13 = "C16.verus.guard_expression_true.boolean_or_error"
+    plan.ob(n13, "verus", "proved", functions=["src/interpreter/src/expressions.rs: guard_expression_true (whole body)"],
+            what="a guard holds iff it evaluates, under the bindings of its arm's pattern, to the boolean true; a guard that fails to evaluate or is not a boolean is an error")
+    try:
+        plan.verus.append(VerusUnit("c16_guard_true", vC16.guard_true_unit(etext, feats), {"guard_expression_true": n13}, ["canary_guard_true"]))
+    except AnchorLost as e:
+        plan.anchor_errors.append((n13, str(e)))
+    plan.dropped.append(vC16.guard_true_fn.__doc__.strip())
     n5 = "C16.verus.try_broadcast_user_function.elementwise_over_a_matrix"
     plan.ob(n5, "verus", "proved", functions=["try_broadcast_user_function (whole body)"],
             what="a function with one input and one output of the same scalar kind, called with one matrix argument, returns the matrix of the source's shape assembled from the function applied to each element -- each element once, in element order; an error in any application is an error; in every other situation the broadcast does not apply (and applies the function to nothing)")
